@@ -181,4 +181,245 @@ theorem filterWalk_fuel_stable (s : Store) : ∀ (fuel : Nat) (stack : List Nat)
       simp only [] at hd
       rw [filterWalk_fuel_stable s fuel _ hd k]
 
+/-! ### every directory is entered once; the fuel of the model suffices -/
+
+theorem count_dirChildren (es : List Entry) (b : Nat) :
+    (dirChildren es).count b = (es.map (fun e => e.child)).count (Child.dir b) := by
+  induction es with
+  | nil => simp [dirChildren]
+  | cons e rest ih =>
+    unfold dirChildren
+    cases hc : e.child with
+    | dir c => simp [hc, List.count_cons, ih]
+    | leaf l => simp [hc, List.count_cons, ih]
+
+theorem edge_lt {s : Store} {p c : Nat} (hp : MEdge s p c) : p < s.dirs.length := by
+  by_cases hlt : p < s.dirs.length
+  · exact hlt
+  · simp [MEdge, dir_entries_of_ge s p (by omega)] at hp
+
+/-- `contents_inv`'s one-parent clause, on edges. -/
+theorem edge_parent_unique {P : Params} {s : Store} (h : Inv P s) {p a c : Nat}
+    (hp : MEdge s p c) (ha : MEdge s a c) : p = a := by
+  by_cases hpa : p = a
+  · exact hpa
+  · exfalso
+    have hplt := edge_lt hp
+    have halt := edge_lt ha
+    obtain ⟨x0, hx0⟩ : ∃ x0 : Dir, x0.entries = [] := ⟨{}, rfl⟩
+    have h1 := count_refs_setDir s p x0 (Child.dir c) hplt
+    have h2 : (refs s).count (Child.dir c) ≤ 1 := by simpa using h.oneParent c
+    have h3 : 0 < ((s.dir p).entries.map (fun e => e.child)).count (Child.dir c) := List.count_pos_iff.mpr hp
+    have h4 : Child.dir c ∈ refs (s.setDir p x0) := by
+      rw [mem_refs]
+      refine ⟨(s.setDir p x0).dir a, dir_mem _ a (by simpa [Store.setDir] using halt), ?_⟩
+      rw [dir_setDir_ne s p a _ hpa]
+      simpa [MEdge] using ha
+    have h5 := List.count_pos_iff.mpr h4
+    simp [hx0] at h1
+    omega
+
+theorem dirChildren_nodup {P : Params} {s : Store} (h : Inv P s) (x : Nat) :
+    (dirChildren (s.dir x).entries).Nodup := by
+  rw [List.nodup_iff_count]
+  intro b
+  rw [count_dirChildren]
+  by_cases hlt : x < s.dirs.length
+  · have h1 := count_refs_setDir s x { s.dir x with entries := [] } (Child.dir b) hlt
+    have h2 : (refs s).count (Child.dir b) ≤ 1 := by simpa using h.oneParent b
+    simp at h1
+    omega
+  · simp [dir_entries_of_ge s x (by omega)]
+
+theorem MReach.tail_cases {s : Store} {b c : Nat} (h : MReach s b c) :
+    b = c ∨ ∃ p, MReach s b p ∧ MEdge s p c := by
+  induction h with
+  | refl a => exact Or.inl rfl
+  | step he _ ih =>
+    rcases ih with h1 | ⟨p, hp, hpe⟩
+    · subst h1
+      exact Or.inr ⟨_, MReach.refl _, he⟩
+    · exact Or.inr ⟨p, MReach.step he hp, hpe⟩
+
+/-- With unique parents the ancestors of a directory form a chain. -/
+theorem mreach_chain {s : Store} (uniq : ∀ p a c, MEdge s p c → MEdge s a c → p = a) {a o : Nat}
+    (ha : MReach s a o) : ∀ b, MReach s b o → MReach s a b ∨ MReach s b a := by
+  induction ha with
+  | refl a => intro b hb; exact Or.inr hb
+  | step he _ ih =>
+    intro b hb
+    rcases ih b hb with h1 | h1
+    · exact Or.inl (MReach.step he h1)
+    · rcases h1.tail_cases with h2 | ⟨p, hp, hpe⟩
+      · subst h2
+        exact Or.inl (MReach.step he (MReach.refl _))
+      · have hpa := uniq _ _ _ hpe he
+        subst hpa
+        exact Or.inr hp
+
+/-- No directory at or below the work list lies on a cycle. -/
+def NoCyc (s : Store) (stack : List Nat) : Prop :=
+  ∀ b ∈ stack, ∀ a, MReach s b a → ∀ c, MEdge s a c → MReach s c a → False
+
+/-- No directory is at or below two positions of the work list. -/
+def Sep (s : Store) (stack : List Nat) : Prop :=
+  stack.Pairwise (fun a b => ∀ o, MReach s a o → MReach s b o → False)
+
+theorem walkDone_noCyc (s : Store) (hlazy : ∀ a, (s.dir a).lazy ≠ none → (s.dir a).entries = []) :
+    ∀ (fuel : Nat) (stack : List Nat), walkDone fuel s stack = true → NoCyc s stack
+  | _, [], _, b, hb, _, _, _, _, _ => by simp at hb
+  | 0, _ :: _, hd, _, _, _, _, _, _, _ => by simp [walkDone] at hd
+  | fuel + 1, x :: rest, hd, b, hb, a, hba, c, he, hr => by
+    have hfull := hd
+    unfold walkDone at hd
+    cases hl : (s.dir x).lazy with
+    | some t =>
+      rw [hl] at hd
+      simp only [] at hd
+      rcases List.mem_cons.mp hb with h | h
+      · subst h
+        have hnil : (s.dir b).entries = [] := hlazy b (by simp [hl])
+        cases hba with
+        | refl => simp [MEdge, hnil] at he
+        | step he' _ => simp [MEdge, hnil] at he'
+      · exact walkDone_noCyc s hlazy fuel rest hd b h a hba c he hr
+    | none =>
+      rw [hl] at hd
+      simp only [] at hd
+      rcases List.mem_cons.mp hb with h | h
+      · subst h
+        cases hba with
+        | refl => exact walkDone_no_cycle s hlazy (fuel + 1) (b :: rest) hfull b (by simp) c he hr
+        | step he' hr' =>
+          exact walkDone_noCyc s hlazy fuel _ hd _ (List.mem_append_left _ (mem_dirChildren.mpr he')) a hr' c he hr
+      · exact walkDone_noCyc s hlazy fuel _ hd b (List.mem_append_right _ h) a hba c he hr
+
+theorem walkDirs_nodup (s : Store) (uniq : ∀ p a c, MEdge s p c → MEdge s a c → p = a)
+    (hchild : ∀ x, (dirChildren (s.dir x).entries).Nodup) :
+    ∀ (fuel : Nat) (stack : List Nat), NoCyc s stack → Sep s stack → (walkDirs fuel s stack).Nodup
+  | 0, _, _, _ => by simp [walkDirs]
+  | fuel + 1, [], _, _ => by simp [walkDirs]
+  | fuel + 1, x :: rest, hnc, hsep => by
+    unfold walkDirs
+    have hsep' := List.pairwise_cons.mp hsep
+    have hx_rest : ∀ a ∈ rest, MReach s a x → False := fun a ha hr => hsep'.1 a ha x (MReach.refl x) hr
+    cases hl : (s.dir x).lazy with
+    | some t =>
+      simp only []
+      refine List.nodup_cons.mpr ⟨?_, walkDirs_nodup s uniq hchild fuel rest
+        (fun b hb => hnc b (List.mem_cons_of_mem _ hb)) hsep'.2⟩
+      intro hmem
+      obtain ⟨a, ha, hr⟩ := walkDirs_sound s fuel rest x hmem
+      exact hx_rest a ha hr
+    | none =>
+      simp only []
+      have hnc' : NoCyc s (dirChildren (s.dir x).entries ++ rest) := by
+        intro b hb a hba
+        rcases List.mem_append.mp hb with h1 | h1
+        · exact hnc x (by simp) a (MReach.step (mem_dirChildren.mp h1) hba)
+        · exact hnc b (List.mem_cons_of_mem _ h1) a hba
+      have hcyc : ∀ c, MEdge s x c → MReach s c x → False :=
+        fun c he hr => hnc x (by simp) x (MReach.refl x) c he hr
+      have hsepc : Sep s (dirChildren (s.dir x).entries ++ rest) := by
+        unfold Sep
+        rw [List.pairwise_append]
+        refine ⟨?_, hsep'.2, ?_⟩
+        · refine List.Pairwise.imp_of_mem ?_ (hchild x)
+          intro c1 c2 h1 h2 hne o ho1 ho2
+          have e1 := mem_dirChildren.mp h1
+          have e2 := mem_dirChildren.mp h2
+          rcases mreach_chain uniq ho1 c2 ho2 with h | h
+          · rcases h.tail_cases with h3 | ⟨p, hp, hpe⟩
+            · exact hne h3
+            · have hpx := uniq _ _ _ hpe e2
+              rw [hpx] at hp
+              exact hcyc c1 e1 hp
+          · rcases h.tail_cases with h3 | ⟨p, hp, hpe⟩
+            · exact hne h3.symm
+            · have hpx := uniq _ _ _ hpe e1
+              rw [hpx] at hp
+              exact hcyc c2 e2 hp
+        · intro c hc b hb o ho1 ho2
+          exact hsep'.1 b hb o (MReach.step (mem_dirChildren.mp hc) ho1) ho2
+      refine List.nodup_cons.mpr ⟨?_, walkDirs_nodup s uniq hchild fuel _ hnc' hsepc⟩
+      intro hmem
+      obtain ⟨a, ha, hr⟩ := walkDirs_sound s fuel _ x hmem
+      rcases List.mem_append.mp ha with h1 | h1
+      · exact hcyc a (mem_dirChildren.mp h1) hr
+      · exact hx_rest a h1 hr
+
+theorem cookie_of_mem_dirItems {s : Store} {o : Nat} {r : Report} (h : r ∈ dirItems s o) : r.cookie = o := by
+  unfold dirItems at h
+  split at h
+  · simp at h
+    rw [h]
+  · obtain ⟨e, _, he⟩ := List.mem_map.mp h
+    rw [← he]
+
+theorem dirItems_nodup {P : Params} {s : Store} {o : Nat} (hok : DirOK P (s.dir o)) : (dirItems s o).Nodup := by
+  unfold dirItems
+  split
+  · simp
+  · have hn : (s.dir o).entries.Pairwise (fun a b => a.name ≠ b.name) :=
+      List.Pairwise.imp_of_mem (fun {a b} ha hb hab hname =>
+        hab (by rw [hok.norm a ha, hok.norm b hb, hname])) hok.nodup
+    exact (hn.filter _).map _ (fun a b hab h => hab (congrArg Report.name h))
+
+theorem filterWalk_nodup {P : Params} (s : Store) (hok : ∀ a, DirOK P (s.dir a)) (fuel : Nat) (stack : List Nat)
+    (hd : (walkDirs fuel s stack).Nodup) : (filterWalk fuel s stack).Nodup := by
+  rw [filterWalk_eq_flatMap]
+  refine List.pairwise_flatMap.mpr ⟨fun a _ => dirItems_nodup (hok a), ?_⟩
+  refine List.Pairwise.imp ?_ hd
+  intro a b hab x hx y hy hxy
+  apply hab
+  rw [← cookie_of_mem_dirItems hx, ← cookie_of_mem_dirItems hy, hxy]
+
+theorem walkDirs_length_of_not_done (s : Store) : ∀ (fuel : Nat) (stack : List Nat),
+    walkDone fuel s stack = false → (walkDirs fuel s stack).length = fuel
+  | fuel, [], h => by cases fuel <;> simp [walkDone] at h
+  | 0, _ :: _, _ => by simp [walkDirs]
+  | fuel + 1, x :: rest, h => by
+    unfold walkDone at h
+    unfold walkDirs
+    cases hl : (s.dir x).lazy with
+    | some t =>
+      rw [hl] at h
+      simp only [] at h ⊢
+      rw [List.length_cons, walkDirs_length_of_not_done s fuel rest h]
+    | none =>
+      rw [hl] at h
+      simp only [] at h ⊢
+      rw [List.length_cons, walkDirs_length_of_not_done s fuel _ h]
+
+theorem mreach_lt {P : Params} {s : Store} (h : Inv P s) {d o : Nat} (hd : d < s.dirs.length)
+    (hr : MReach s d o) : o < s.dirs.length := by
+  rcases hr.tail_cases with h1 | ⟨p, _, hpe⟩
+  · omega
+  · apply h.dirRef o
+    have hplt := edge_lt hpe
+    have : Child.dir o ∈ refs s := by
+      rw [mem_refs]
+      exact ⟨s.dir p, dir_mem s p hplt, by simpa [MEdge] using hpe⟩
+    simp [this]
+
+/-- On a hierarchy without a cycle below `d` the model's fuel is enough. -/
+theorem walkDone_of_noCyc {P : Params} {s : Store} (h : Inv P s) (d : Nat) (hd : d < s.dirs.length)
+    (hnc : NoCyc s [d]) (k : Nat) : walkDone (s.dirs.length + k + 1) s [d] = true := by
+  cases hdone : walkDone (s.dirs.length + k + 1) s [d] with
+  | true => rfl
+  | false =>
+    exfalso
+    have hlen := walkDirs_length_of_not_done s _ _ hdone
+    have hnd := walkDirs_nodup s (fun p a c => edge_parent_unique h) (dirChildren_nodup h) (s.dirs.length + k + 1) [d] hnc
+      (by simp [Sep])
+    have hsub : walkDirs (s.dirs.length + k + 1) s [d] ⊆ List.range s.dirs.length := by
+      intro o ho
+      obtain ⟨a, ha, hr⟩ := walkDirs_sound s _ _ o ho
+      simp at ha
+      subst ha
+      exact List.mem_range.mpr (mreach_lt h hd hr)
+    have := hnd.length_le_of_subset hsub
+    simp at this
+    omega
+
 end BbRe.Lemmas.Dir
